@@ -217,10 +217,20 @@ struct Runner {
   }
 
   // C08 on lattice meshes: canonical triangle multiset over positions
-  void roundtrip(int hi, const MeshGL64& g) {
+  void roundtrip(int hi, const MeshGL64& g0) {
+    roundtrip1(hi, g0, "as-is");
+    const Manifold& m = *h[hi].m;
+    if (m.NumTri() == 0 || m.NumTri() > 400) return;
+    // derived variants: normals (runFlags bit 1, with back-side runs: flags 3), property channels, tangents
+    roundtrip1(hi, m.CalculateNormals(0).GetMeshGL64(), "normals");
+    roundtrip1(hi, m.SetProperties(2, [](double* o, vec3 p, const double*) { o[0] = p.x - p.z; o[1] = 0.5 * p.y; }).CalculateNormals(2).GetMeshGL64(), "props+normals@2");
+    roundtrip1(hi, m.SmoothOut(30).GetMeshGL64(), "tangents");
+    roundtrip1(hi, m.Refine(2).GetMeshGL64(), "refined");
+  }
+  void roundtrip1(int hi, const MeshGL64& g, const char* variant) {
     Manifold back(g);
     if (back.Status() != Manifold::Error::NoError) {
-      fail("roundtrip", {{"h", hi}, {"status", ErrName(back.Status())}});
+      fail("roundtrip", {{"h", hi}, {"variant", variant}, {"why", std::string("re-import status ") + ErrName(back.Status())}});
       return;
     }
     MeshGL64 g2 = back.GetMeshGL64();
@@ -249,13 +259,17 @@ struct Runner {
         static const double ident[12] = {1, 0, 0, 0, 1, 0, 0, 0, 1, 0, 0, 0};
         const bool hasT = r >= 0 && m.runTransform.size() >= 12 * (size_t)(r + 1);
         for (int q = 0; q < 12; q++) key.push_back(hasT ? m.runTransform[12 * r + q] : ident[q]);
+        // the tangent of every directed edge of the triangle, in the same rotation
+        if (m.halfedgeTangent.size() == 4 * m.triVerts.size())
+          for (int k = 0; k < 3; k++)
+            for (int q = 0; q < 4; q++) key.push_back(m.halfedgeTangent[4 * (3 * t + (best + k) % 3) + q]);
         s.insert(key);
       }
       return s;
     };
-    if (canon(g) != canon(g2)) fail("roundtrip", {{"h", hi}, {"why", "canonical triangle sets differ"}, {"nt", g.NumTri()}, {"nt2", g2.NumTri()}});
+    if (canon(g) != canon(g2)) fail("roundtrip", {{"h", hi}, {"variant", variant}, {"why", "canonical triangle sets differ"}, {"nt", g.NumTri()}, {"nt2", g2.NumTri()}});
     // an empty mesh has no surface: its tolerance is not compared
-    if (g.NumTri() > 0 && g2.tolerance < g.tolerance) fail("roundtrip", {{"h", hi}, {"why", "tolerance shrank"}});
+    if (g.NumTri() > 0 && g2.tolerance < g.tolerance) fail("roundtrip", {{"h", hi}, {"variant", variant}, {"why", "tolerance shrank"}});
   }
 
   // C18 on the lattice (DESIGN 3.1: only what the statement demands)
